@@ -79,6 +79,43 @@ func exprScenario(group, s string, ops []string, ctxs []int) Scenario {
 		}}
 }
 
+// compileScenario: every thread COMPILES its own expression (Compile, or
+// CompileWithNS when ns is non-nil) while the others do the same, then uses it.
+func compileScenario(exprs []string, ns map[string]string) Scenario {
+	var expected []string
+	return Scenario{Name: fmt.Sprintf("compile %q ns=%v", exprs, ns), Group: "compile", Desc: "threads call Compile / CompileWithNS at the same time (parser, builder, function table) and evaluate the result",
+		Make: func() *Instance {
+			xpath.RegexpCache = xpath.NewLoadingCache(func(k interface{}) (interface{}, error) { return regexp.Compile(k.(string)) }, 64)
+			in := &Instance{}
+			for _, s := range exprs {
+				s := s
+				in.Bodies = append(in.Bodies, func() string {
+					var e *xpath.Expr
+					var err error
+					if ns != nil {
+						e, err = xpath.CompileWithNS(s, ns)
+					} else {
+						e, err = xpath.Compile(s)
+					}
+					if err != nil {
+						return "compile-error: " + err.Error()
+					}
+					return run(e, "evaluate", 1) + " / " + run(e, "select", 3)
+				})
+			}
+			bodies := in.Bodies
+			in.Expect = func() []string {
+				if expected == nil {
+					for _, b := range bodies {
+						expected = append(expected, b())
+					}
+				}
+				return expected
+			}
+			return in
+		}}
+}
+
 // Exprs is the C05 expression list: every query-node type and every function
 // closure (the state lives there).
 func Exprs() (plain, closures, closurePreds []string) {
@@ -269,6 +306,13 @@ func List(tier string) []Scenario {
 		for _, s := range append(append([]string{}, closures[:12]...), plain[:8]...) {
 			out = append(out, exprScenario("three", s, []string{"evaluate", "select", "evaluate"}, []int{0, 1, 3}))
 		}
+	}
+	// concurrent Compile calls (no shared expression: only package-level state can collide)
+	out = append(out, compileScenario([]string{"//a[b]", "count(//a) + 1"}, nil), compileScenario([]string{"*[last()]", "*[last()]"}, nil),
+		compileScenario([]string{"concat(a, 'x')", "a[1"}, nil), compileScenario([]string{"p:a", "//p:*"}, map[string]string{"p": "u"}),
+		compileScenario([]string{"string-join(//b, ',')", "normalize-space(.)"}, nil))
+	if tier == "thorough" {
+		out = append(out, compileScenario([]string{"//a", "//b", "a | b"}, nil))
 	}
 	for _, capacity := range []int{1, 2} {
 		out = append(out, regexScenario("1", "1", capacity), regexScenario("1", "2+", capacity), regexScenario("(1", "1", capacity))
